@@ -596,6 +596,10 @@ impl Gen<'_> {
                 n = next.min(3);
             }
         }
+        // numbers with gaps (fa59617: a complete may list any strictly ascending selection)
+        if self.rng.chance(1, 6) {
+            n = self.rng.pick(&[5, 9, 4, 7, 10000]);
+        }
         if self.rng.chance(1, 30) {
             n = 10001;
         }
@@ -700,76 +704,107 @@ impl Gen<'_> {
     fn op_mpx(&mut self) -> Option<String> {
         let (i, u) = self.upload()?;
         let (w, b, k) = self.upload_ctx(i);
+        if self.conflicts(&b, &k) {
+            return None;
+        }
+        // the uploaded parts, ascending
         let have: Vec<(i32, usize)> = i.map(|i| self.sim.ups[i].parts.iter().map(|(n, l)| (*n, *l)).collect()).unwrap_or_default();
-        // the longest run 1..n of uploaded parts
-        let mut run: Vec<(i32, usize)> = Vec::new();
-        for (n, l) in &have {
-            if *n == run.len() as i32 + 1 {
-                run.push((*n, *l));
+        let all: Vec<i32> = have.iter().map(|(n, _)| *n).collect();
+        let join = |v: &[i32]| format!("+{}", v.iter().map(ToString::to_string).collect::<Vec<_>>().join(","));
+        // (since fa59617 the listed numbers need not be consecutive, and since a00e4e8 every part list is answered as the store
+        // prescribes — MalformedXML, InvalidPartOrder, InvalidPart, EntityTooSmall, in this order — and a refused complete
+        // changes nothing: a clean history may send any part list)
+        // (since b29f222 a complete into a bucket that no longer exists is refused and changes nothing: a clean history
+        // may ask for it; the upload stays and can be completed once the bucket exists again)
+        // (since 47e9b00 a complete replaces the side files of the object it replaces: a clean history may complete
+        // over an object that has metadata or recorded checksums)
+        let r = if self.f_mpabuse { self.rng.below(24) } else { 12 + self.rng.below(12) };
+        let pl: String = match r {
+            0 => "-".to_owned(),
+            1 => "+".to_owned(),
+            // a part without a number (alone, after uploaded parts, before a number out of order)
+            2 => self.rng.pick(&["+x", "+1,x", "+x,1", "+2,1,x"]).to_owned(),
+            // out of order: the uploaded parts reversed / rotated, or fixed lists (whose parts may not exist: the order is
+            // looked at first)
+            3 | 4 => {
+                if all.len() >= 2 && self.rng.chance(2, 3) {
+                    let mut v = all.clone();
+                    if self.rng.chance(1, 2) {
+                        v.reverse();
+                    } else {
+                        v.rotate_left(1);
+                    }
+                    join(&v)
+                } else {
+                    self.rng.pick(&["+2,1", "+3,1,2", "+1,3,2", "+10000,1", "+5,5"]).to_owned()
+                }
             }
-        }
-        let exact_ok = !run.is_empty() && run[..run.len() - 1].iter().all(|(_, l)| *l >= MIB5);
+            // a number twice
+            5 => {
+                if all.is_empty() {
+                    "+1,1".to_owned()
+                } else {
+                    let mut v = all.clone();
+                    let j = self.rng.below(v.len() as u64) as usize;
+                    v.insert(j, v[j]);
+                    join(&v)
+                }
+            }
+            // ascending, but a listed part was never uploaded (also numbers no part can have)
+            6 | 7 => {
+                let mut v = all.clone();
+                let extra = self.rng.pick(&[0, -1, 1, 2, 3, 4, 6, 8, 10000, 10001]);
+                if !v.contains(&extra) {
+                    v.push(extra);
+                    v.sort_unstable();
+                }
+                join(&v)
+            }
+            8 => self.rng.pick(&["+1,3", "+2", "+1,2", "+1", "+2,5,9", "+7"]).to_owned(),
+            // a strictly ascending selection of the uploaded parts (gaps in the numbers, gaps in the selection)
+            9..=16 => {
+                let mut v: Vec<i32> = all.iter().copied().filter(|_| self.rng.chance(1, 2)).collect();
+                if v.is_empty() || self.rng.chance(1, 3) {
+                    // one part alone always passes the size rule
+                    v = if all.is_empty() { vec![1] } else { vec![all[self.rng.below(all.len() as u64) as usize]] };
+                }
+                join(&v)
+            }
+            // all uploaded parts
+            _ => {
+                if all.is_empty() {
+                    "+1".to_owned()
+                } else {
+                    join(&all)
+                }
+            }
+        };
+        // what the store does with this list
+        let nums: Option<Vec<i32>> =
+            if pl == "-" || pl == "+" { None } else { pl[1..].split(',').map(|p| p.parse::<i32>().ok()).collect() };
+        let valid = nums.as_ref().is_some_and(|ns| {
+            ns.windows(2).all(|w| w[0] < w[1])
+                && ns.iter().all(|n| have.iter().any(|(m, _)| m == n))
+                && ns[..ns.len() - 1].iter().all(|n| have.iter().any(|(m, l)| m == n && *l >= MIB5))
+        });
         let dst = (b.clone(), k.clone());
-        let mut pl: String;
-        let mut good = false;
-        if self.clean {
-            let i = i?;
-            let bound = self.bound(i, &b, &k);
-            let up = &self.sim.ups[i];
-            if !exact_ok || self.conflicts(&b, &k) {
-                return None;
-            }
-            // (since b29f222 a complete into a bucket that no longer exists is refused and changes nothing: a clean history
-            // may ask for it; the upload stays and can be completed once the bucket exists again)
-            // (since 47e9b00 a complete replaces the side files of the object it replaces: a clean history may complete
-            // over an object that has metadata or recorded checksums)
-            // a single small part unless the parts are big enough
-            pl = format!("+{}", run.iter().map(|(n, _)| n.to_string()).collect::<Vec<_>>().join(","));
-            good = up.owner == w && bound && self.sim.buckets.contains_key(&b);
-        } else {
-            if self.conflicts(&b, &k) {
-                return None;
-            }
-            pl = match self.rng.below(12) {
-                0 => "-".to_owned(),
-                1 => "+".to_owned(),
-                2 => "+2,1".to_owned(),
-                3 => "+1,3".to_owned(),
-                4 => "+x".to_owned(),
-                5 => "+1,2".to_owned(),
-                6 => "+2".to_owned(),
-                _ => format!("+{}", run.iter().map(|(n, _)| n.to_string()).collect::<Vec<_>>().join(",")),
-            };
-            if !self.f_mpabuse && !run.is_empty() {
-                pl = format!("+{}", run.iter().map(|(n, _)| n.to_string()).collect::<Vec<_>>().join(","));
-            }
-        }
         if !self.clean {
-            // whatever the store says, the real backend may create the file (e.g. for an empty part list)
             self.sim.maybe.insert(dst.clone());
         }
         if let Some(i) = i {
-            if self.sim.ups[i].alive && self.sim.ups[i].owner == w && self.bound(i, &b, &k) {
-                let exact = pl == format!("+{}", run.iter().map(|(n, _)| n.to_string()).collect::<Vec<_>>().join(","));
-                // since 0096ef4 the real backend consumes the upload id only when the complete succeeds (an empty part list
-                // "succeeds" too); after a failed complete the upload stays and later operations keep addressing it
-                // ... and (b29f222) only when the bucket still exists: the object is not written into a bucket that is gone
-                let bucket_there = self.sim.buckets.contains_key(&b);
-                if bucket_there && (good || (exact && exact_ok) || pl == "+") {
-                    self.sim.ups[i].alive = false;
+            // the upload is consumed only by a complete of its owner, under its bucket and key, that passes the validation
+            // (0096ef4), and only when the bucket still exists (b29f222)
+            if self.sim.ups[i].alive && self.sim.ups[i].owner == w && self.bound(i, &b, &k) && valid && self.sim.buckets.contains_key(&b) {
+                let total: usize = nums.unwrap().iter().map(|n| have.iter().find(|(m, _)| m == n).unwrap().1).sum();
+                self.sim.ups[i].alive = false;
+                self.sim.buckets.get_mut(&b).unwrap().insert(k.clone(), total);
+                self.sim.maybe.insert(dst.clone());
+                if self.sim.ups[i].has_meta {
+                    self.sim.metafile.insert(dst.clone());
+                } else {
+                    self.sim.metafile.remove(&dst);
                 }
-                if (good || (exact && exact_ok)) && !pl.ends_with('+') {
-                    if let Some(objs) = self.sim.buckets.get_mut(&b) {
-                        objs.insert(k.clone(), run.iter().map(|(_, l)| *l).sum());
-                        self.sim.maybe.insert(dst.clone());
-                        if self.sim.ups[i].has_meta {
-                            self.sim.metafile.insert(dst.clone());
-                        } else {
-                            self.sim.metafile.remove(&dst);
-                        }
-                        self.sim.cksfile.remove(&dst);
-                    }
-                }
+                self.sim.cksfile.remove(&dst);
             }
         }
         Some(format!("mpx:{w}:{}:{}:{u}:{pl}", hs(&b), hs(&k)))
@@ -823,12 +858,24 @@ impl Gen<'_> {
         let u = format!("u{}", self.sim.ups.len());
         self.ops.push(format!("mpc:{w}:{}:{}:{}", hs(&b), hs(&k), meta_str(m.as_ref())));
         let lens = [MIB5 + self.rng.below(5) as usize, MIB5, self.rng.below(5000) as usize];
-        for (j, len) in lens.iter().enumerate() {
-            let c = self.new_content(*len);
-            self.ops.push(format!("mpu:{w}:{}:{}:{u}:{}:{c}", hs(&b), hs(&k), j + 1));
+        // consecutive numbers, or numbers with gaps (fa59617), uploaded in any order
+        let nums: [i32; 3] = self.rng.pick(&[[1, 2, 3], [1, 2, 3], [2, 5, 9], [1, 3, 10000], [3, 4, 6]]);
+        let mut order = [0usize, 1, 2];
+        if self.rng.chance(1, 2) {
+            order.swap(0, self.rng.range(1, 2) as usize);
+        }
+        for j in order {
+            let c = self.new_content(lens[j]);
+            self.ops.push(format!("mpu:{w}:{}:{}:{u}:{}:{c}", hs(&b), hs(&k), nums[j]));
         }
         self.ops.push(format!("mpl:{w}:{}:{}:{u}", hs(&b), hs(&k)));
-        self.ops.push(format!("mpx:{w}:{}:{}:{u}:+1,2,3", hs(&b), hs(&k)));
+        if self.rng.chance(1, 3) {
+            // refused first (out of order; then a number twice or a part that was never uploaded): nothing changes
+            let bad = self.rng.pick(&[[2usize, 0, 1], [0, 2, 1], [1, 0, 2]]);
+            self.ops.push(format!("mpx:{w}:{}:{}:{u}:+{},{},{}", hs(&b), hs(&k), nums[bad[0]], nums[bad[1]], nums[bad[2]]));
+            self.ops.push(format!("mpx:{w}:{}:{}:{u}:+{},{},{}", hs(&b), hs(&k), nums[0], nums[1] + 1, nums[2]));
+        }
+        self.ops.push(format!("mpx:{w}:{}:{}:{u}:+{},{},{}", hs(&b), hs(&k), nums[0], nums[1], nums[2]));
         let total: usize = lens.iter().sum();
         self.sim.ups.last_mut().unwrap().alive = false;
         self.sim.buckets.get_mut(&b).unwrap().insert(k.clone(), total);
